@@ -544,6 +544,7 @@ theorem Shape_step (g : G) (op : Op) (h : Shape g) : Shape (step g op).1 := by
   | addIfSource o n i => exact Shape_addIfSource _ _ _ _ h
   | addIfSink o n i => exact Shape_addIfSink _ _ _ _ h
   | disconnect w o => exact Shape_disconnect _ _ _ h
+  | wires p n k => exact forEach_pred (P := Shape) _ (fun g x hg => Shape_newWire _ _ _ _ hg) _ _ h
 
 theorem Shape_empty : Shape {} :=
   ⟨fun o ob n c h => by simp at h, fun o ob h => by simp at h, fun o ob h => by simp at h,
